@@ -6,9 +6,8 @@ COQ_TARGETS = ["Props/Properties_C02.vo"]
 META = dict(
     text="proof (partial): Coq theorems over a bit-exact Gallina model of the ICE-TCP data path of agent/agent.c. Sender (RFC 4571 framing loop with its "
          "offset / current_offset / offset_in_buffer arithmetic, every read of a caller buffer checked): for ALL sizes and scatter layouts the vectors handed "
-         "to the socket layer are exactly the 2-byte-length-prefixed frames of the message cut at 0xF800 bytes, unless a frame after the first is not "
-         "contained in one caller buffer, in which case the code over-reads the buffer (exact condition proved as an iff, witness [63488][100], reproduced "
-         "with ASan: KNOWN-FINDING). Receiver (rfc4571_buffer / frame_offset / frame_size / consumed_size state, agent_recv_message_unlocked, "
+         "to the socket layer are exactly the 2-byte-length-prefixed frames of the message cut at 0xF800 bytes and no vector leaves a caller buffer "
+         "(unconditional since fix f9b160b; the pre-fix over-read condition is kept as regression lemmas). Receiver (rfc4571_buffer / frame_offset / frame_size / consumed_size state, agent_recv_message_unlocked, "
          "agent_consume_next_rfc4571_chunk, append_buffer_to_input_messages): for ALL byte streams and ALL segmentations of the stream into kernel reads "
          "(induction over the read script) the receive callback is handed, in order and one call per frame, exactly the payloads of the complete frames, "
          "minus the frames the STUN demultiplexer consumed; no read outside the reassembly buffer, no write outside a caller buffer; the result does not "
@@ -19,7 +18,8 @@ META = dict(
          "process (virtual clock), the kernel calls of socket/tcp-bsd.c are interposed to force partial writes / short reads, the agent->socket interface "
          "is wrapped to see the vectors; the same inputs go through the model (evaluated inside Coq) and the outputs are compared; an implementation-side "
          "oracle states the property without the model. UDP host pairs and pseudo-TCP over UDP (reliable mode) are NOT proved here: real agents run in the "
-         "deterministic simulator (1..65535 bytes over 1..8 buffers, STUN lookalikes, loss) with payload-equality / stream-prefix oracles; pseudo-TCP "
+         "deterministic simulator (1..65535 bytes over 1..8 buffers, STUN lookalikes, loss; receive callback or pull mode = nice_agent_recv_messages_nonblocking "
+         "with scatter layouts of tiny / empty leading buffers) with payload-equality / stream-prefix oracles; pseudo-TCP "
          "itself is C08/C10, the TCP send queue C17.",
     note="trusted: Coq kernel, the hand-written model (tied by sampling), harness/data_h.c (interposed kernel, wrapped socket interface), harness/sim.c, "
          "python oracles. Partial: UDP / pseudo-TCP transports by counterexample search only; bytestream-tcp reassembly modelled and tied, its theorem is "
